@@ -337,7 +337,16 @@ func Run(c Campaign, tier string, seed uint64, drv, outPath string, replay []str
 		}
 	}
 	if len(res.Failures) > 200 {
-		res.Failures = res.Failures[:200]
+		// keep up to 100 of each kind so that one kind cannot hide the other
+		var keep []Failure
+		n := map[string]int{}
+		for _, f := range res.Failures {
+			if n[f.Kind] < 100 {
+				n[f.Kind]++
+				keep = append(keep, f)
+			}
+		}
+		res.Failures = keep
 	}
 	res.WallS = time.Since(start).Seconds()
 	b, _ := json.MarshalIndent(res, "", " ")
